@@ -22,6 +22,7 @@ import GambitV.Gen.PyCluster
 import GambitV.Gen.PyGetitem
 import GambitV.Gen.PyIo
 import GambitV.Gen.PyGetattr
+import GambitV.Gen.PySigEq
 import GambitV.Gen.PyCalcFile
 import GambitV.Gen.PySigListGetitem
 import GambitV.Model.Params
